@@ -16,6 +16,7 @@ collection, absence of other shared mutable state in numpy/sklearn, and that dif
 -/
 import DPL.Model.Schedule
 import DPL.Proofs.Schedule
+import DPL.Model.RngSites
 
 namespace DPL.C15
 open DPL
@@ -171,5 +172,43 @@ theorem tree_index_closed_form (n k idx : Nat) (hn : 0 < n) (hk : 0 < k) :
 
 /-- non-vacuity of `subsets_partition`: 7 rows, 3 trees, no shuffle: row 3 goes to tree 1 -/
 example : treeOf ℝ 7 3 3 = 1 := by rw [treeOf_real 7 3 3 (by norm_num) (by norm_num)]; rfl
+
+
+/-! ## Static tie: what is handed to the parallel tasks
+
+The schedule-independence theorems above assume that each task owns its randomness (`seeded_schedule_independent`,
+`logreg_schedule_independent`) and show that a generator SHARED between tasks makes the result depend on the schedule
+(`shared_rng_schedule_dependent`).  Which of the two the code does is read off the source on every run: the randomness-site
+translator (`harness/translate/rngsites.py`, shared with C14) regenerates the table of every `random_state` hand-over
+and the obligation `DPL.Gen.C14.external_passes` proves that the hand-overs to code outside the library — scikit-learn's
+`_make_estimator` (one call per tree) and the joblib-delayed `_logistic_regression_path` (one task per class) — are
+exactly `RngSites.externalPasses`.  The theorems below say what that table means for C15. -/
+
+open RngSites in
+/-- an expression that denotes a generator OBJECT (which a second task could share) rather than a value drawn from one -/
+def sharesGenerator : Org → Bool
+  | .none => false
+  | .intConst => false
+  | .drawn _ _ => false
+  | .ifSeeded _ t => sharesGenerator t
+  | .join a b => sharesGenerator a || sharesGenerator b
+  | _ => true
+
+open RngSites in
+/-- the joblib-delayed one-vs-rest tasks of LogisticRegression each receive an integer drawn from the estimator's
+generator BEFORE dispatch (or `None` when unseeded) — never the generator itself (the defect repaired in b7f8f89) -/
+theorem parallel_tasks_get_seeds :
+    ∀ p ∈ externalPasses, p.callee = "path_func" → sharesGenerator p.arg = false := by decide
+
+open RngSites in
+/-- the forest hands its own generator to `_make_estimator` sequentially, in tree order, in the parent process (each
+call draws the tree's integer seed there); no generator crosses into a parallel task -/
+theorem forest_seeds_drawn_in_parent :
+    ∀ p ∈ externalPasses, p.fn = "RandomForestClassifier.fit" → p.callee = "self._make_estimator" := by decide
+
+open RngSites in
+/-- the predicate discriminates: handing the estimator's own generator to the tasks (the pre-b7f8f89 code) is flagged -/
+theorem shared_generator_flagged :
+    sharesGenerator (.ifSeeded (.selfAttr "random_state") (.crs (.selfAttr "random_state") false)) = true := by decide
 
 end DPL.C15
